@@ -369,3 +369,7 @@ PROPS["C07"]["streams"] = [G_COND, CH_COND, G_COND_RESOLVE]
 # ------------------------------------------------------------------ work-conserving harness policy with latency (measured only)
 WC = {"profile": "wc", "opts": {"p_batch_loader": 0}}
 PROPS["C05"]["streams"] = PROPS["C05"]["streams"] + [WC]
+
+# cut enumeration is ~40 runs per case: keep its share of the C08 streams at about one in seven
+PROPS["C08"]["streams"] = [s_ for s_ in PROPS["C08"]["streams"] if s_.get("kind") != "cuts"] * 2 + \
+    [CUTS_G, CUTS_CH, CUTS_ENF]
